@@ -559,16 +559,14 @@ func (n *NEO) PostPersist(ic *interop.Context) error {
 			h        = ic.Block.Index // consider persisting block as stored to get _next_ block newEpochNextValidators
 			numOfCNs = n.cfg.GetNumOfCNs(h + 1)
 		)
-		if cache.votesChanged ||
-			numOfCNs != len(cache.newEpochNextValidators) ||
-			n.cfg.GetCommitteeSize(h+1) != len(cache.newEpochCommittee) {
-			if !isCacheRW {
-				cache = ic.DAO.GetRWCache(n.ID).(*NeoCache)
-			}
-			err := n.updateCachedNewEpochValues(ic.DAO, cache, h, numOfCNs)
-			if err != nil {
-				return fmt.Errorf("failed to update next block newEpoch* cache: %w", err)
-			}
+		// Always: the result depends not only on votes (votesChanged), but on
+		// the list of blocked accounts as well, which Policy changes on its own.
+		if !isCacheRW {
+			cache = ic.DAO.GetRWCache(n.ID).(*NeoCache)
+		}
+		err := n.updateCachedNewEpochValues(ic.DAO, cache, h, numOfCNs)
+		if err != nil {
+			return fmt.Errorf("failed to update next block newEpoch* cache: %w", err)
 		}
 	}
 
